@@ -4,7 +4,7 @@
    [check_struct] mirrors helpers.go Check (as repaired, see KNOWN_FINDINGS),
    [build_type] BuildType, [wrap] Wrap. *)
 From JV Require Import Model.Base Model.GoTime Gen.TypeGo Model.Schema Model.Value
-  Model.Wrapper Proofs.C20Facts.
+  Model.Wrapper Proofs.C20Facts Proofs.C20Safe Proofs.C20Rels.
 
 (* if Check rejects it, BuildType returns an error and Wrap refuses it *)
 Theorem C20_reject : forall d vals,
@@ -31,9 +31,56 @@ Theorem C20_attrs_declared : forall d n a,
 Proof. exact build_attrs_from. Qed.
 Print Assumptions C20_attrs_declared.
 
-(* NOT PROVED here (correspondence + oracle): that Get / Set / Copy / New /
-   marshaling of every declared field of an accepted struct never panic, and
-   the relationship half of "exactly the tagged fields". *)
+(* Reading and writing the declared fields of an accepted struct never panics:
+   for every struct Check accepts (distinct Go field names, as the language
+   guarantees; values aligned with the fields), every name carried by a
+   tagged field is readable, and writable with nil or a value of the field's
+   Go type -- whatever other (untagged, unexported, differently tagged)
+   fields the struct has.  [tagged]: not the ID field, api tag attr / rel. *)
+Theorem C20_get_declared : forall d vals typ attrs rels n,
+  check_struct d = true -> NoDup (map sf_name d) -> length vals = length d ->
+  (exists f, In f d /\ tagged f = true /\ sf_json f = n) ->
+  exists v, wrapper_get (mkWrapper d vals typ attrs rels) n = Ok v.
+Proof. exact get_declared_ok. Qed.
+Print Assumptions C20_get_declared.
+
+Theorem C20_set_declared : forall d vals typ attrs rels n v,
+  check_struct d = true -> NoDup (map sf_name d) -> length vals = length d ->
+  (exists f, In f d /\ tagged f = true /\ sf_json f = n) ->
+  (forall g, In g d -> sf_json g = n -> v = VNil \/ value_has_type (sf_type g) v = true) ->
+  exists w', wrapper_set (mkWrapper d vals typ attrs rels) n v = Ok w'.
+Proof. exact set_declared_ok. Qed.
+Print Assumptions C20_set_declared.
+
+(* every attribute of the built type is such a name (for a type that is not
+   itself called "attr": the ID field's api tag is the type name) *)
+Theorem C20_attr_names_declared : forall d n a,
+  In (n, a) (build_attrs d) ->
+  (forall f, In f d -> is_id_field f = true -> sf_api f <> "attr") ->
+  exists f, In f d /\ tagged f = true /\ sf_json f = n.
+Proof. exact attr_name_declared. Qed.
+Print Assumptions C20_attr_names_declared.
+
+(* the relationship half of "exactly the tagged fields": every relationship
+   of the built type is declared by a field whose api tag starts with rel,
+   with that field's json name, cardinality ([]string = to-many), target and
+   inverse ([rel_of_field]); conversely every attr-tagged and every
+   rel-tagged field appears in the built type *)
+Theorem C20_rels_declared : forall typ d rels n x,
+  build_rels typ d = Some rels -> In (n, x) rels ->
+  exists f, In f d /\ rel_of_field typ f = Some x /\ sf_json f = n.
+Proof. exact build_rels_from. Qed.
+Print Assumptions C20_rels_declared.
+
+Theorem C20_tagged_fields_all_present : forall typ d rels,
+  build_rels typ d = Some rels ->
+  (forall f, In f d -> sf_api f = "attr" -> In (sf_json f) (map fst (build_attrs d))) /\
+  (forall f x, In f d -> rel_of_field typ f = Some x -> In (sf_json f) (map fst rels)).
+Proof. exact tagged_fields_all_present. Qed.
+Print Assumptions C20_tagged_fields_all_present.
+
+(* NOT PROVED here (correspondence + oracle): Copy / New / marshaling of an
+   accepted struct. *)
 
 Example c20_examples :
   let id := mkSField "ID" (GTAttr 1 false) "id" "things" true in
